@@ -259,7 +259,7 @@ pub struct Case {
     pub sc: Scenario,
 }
 
-fn connect_bytes(v5: bool, keep_alive: u16, id: &str, clean: bool, login: u8) -> Vec<u8> {
+pub fn connect_bytes(v5: bool, keep_alive: u16, id: &str, clean: bool, login: u8) -> Vec<u8> {
     let creds: Option<(&str, &str)> = match login {
         0 => None,
         1 => Some(("nobody", "p")),
